@@ -732,4 +732,292 @@ theorem getC3_map (ni nj nk : Nat) (g : Array VV) (f : VV → VV) (hs : g.size =
     simp [hs, h]
   rw [this]; rfl
 
+/-! ### `detect_cavities`: the class of surface cells is invariant; fuel of the alternation -/
+
+theorem sc_walks3 (ni nj nk : Nat) (u sv : VV) (hu : isSC u = false) (hs : isSC sv = true) (g : Array VV) (p : Nat × Nat × Nat) :
+    SameClass g (walks3 ni nj nk u sv g p) := by
+  unfold walks3
+  generalize walkLists3 ni nj nk p.1 p.2.1 p.2.2 = ls
+  induction ls generalizing g with
+  | nil => exact SameClass.refl g
+  | cons l ls ih => rw [List.foldl_cons]; exact (sc_walkCells u sv hu hs l g).trans (ih _)
+
+theorem sc_propCell3 (ni nj nk : Nat) (toWalk toSet : VV) (surfWalk : Option VV) (sSet : VV)
+    (h1 : isSC toWalk = false) (h2 : isSC toSet = false) (h3 : isSC sSet = true) (st : PSt) (p : Nat × Nat × Nat) :
+    SameClass st.g (propCell3 ni nj nk toWalk toSet surfWalk sSet st p).g := by
+  unfold propCell3
+  simp only []
+  by_cases hv : st.g.getD (idx3 ni nj p.1 p.2.1 p.2.2) .undef = toWalk
+  · rw [if_pos hv]
+    exact (sc_set st.g _ toSet (by rw [h2, hv, h1])).trans (sc_walks3 ni nj nk toWalk sSet h1 h3 _ p)
+  · rw [if_neg hv]
+    by_cases hs : some (st.g.getD (idx3 ni nj p.1 p.2.1 p.2.2) .undef) ≠ surfWalk
+    · rw [if_pos hs]; exact SameClass.refl _
+    · rw [if_neg hs]; exact sc_walks3 ni nj nk toWalk sSet h1 h3 _ p
+
+theorem sc_sweep3 (ni nj nk : Nat) (toWalk toSet : VV) (surfWalk : Option VV) (sSet : VV)
+    (h1 : isSC toWalk = false) (h2 : isSC toSet = false) (h3 : isSC sSet = true) (g : Array VV) (once : Bool) :
+    SameClass g (sweep3 ni nj nk toWalk toSet surfWalk sSet g once).g := by
+  unfold sweep3
+  generalize cellsIn3 0 0 0 ni nj nk = l
+  have gen : ∀ (l : List (Nat × Nat × Nat)) (st : PSt), SameClass st.g (l.foldl (propCell3 ni nj nk toWalk toSet surfWalk sSet) st).g := by
+    intro l
+    induction l with
+    | nil => intro st; exact SameClass.refl _
+    | cons p l ih => intro st; rw [List.foldl_cons]; exact (sc_propCell3 ni nj nk toWalk toSet surfWalk sSet h1 h2 h3 st p).trans (ih _)
+  exact gen l ⟨g, 0, once⟩
+
+theorem sc_propagate3 (ni nj nk : Nat) (toWalk toSet : VV) (surfWalk : Option VV) (sSet : VV)
+    (h1 : isSC toWalk = false) (h2 : isSC toSet = false) (h3 : isSC sSet = true) :
+    ∀ (fuel : Nat) (g : Array VV) (once : Bool), SameClass g (propagate3 ni nj nk toWalk toSet surfWalk sSet fuel g once).1
+  | 0, g, _ => SameClass.refl g
+  | fuel + 1, g, once => by
+    unfold propagate3
+    simp only []
+    split_ifs
+    · exact sc_sweep3 ni nj nk toWalk toSet surfWalk sSet h1 h2 h3 g once
+    · exact (sc_sweep3 ni nj nk toWalk toSet surfWalk sSet h1 h2 h3 g once).trans (sc_propagate3 ni nj nk toWalk toSet surfWalk sSet h1 h2 h3 fuel _ _)
+
+theorem sc_cavityLoop3 (ni nj nk : Nat) : ∀ (fuel : Nat) (g : Array VV), SameClass g (cavityLoop3 ni nj nk fuel g).1
+  | 0, g => SameClass.refl g
+  | fuel + 1, g => by
+    unfold cavityLoop3
+    simp only []
+    have a := sc_propagate3 ni nj nk .inWalk .inside (some .surfWalk1) .surfWalk2 rfl rfl rfl (ni * nj * nk + 1) g false
+    split_ifs
+    · exact a
+    · exact a
+    · exact a.trans (sc_propagate3 ni nj nk .outWalk .outside (some .surfWalk2) .surfWalk1 rfl rfl rfl (ni * nj * nk + 1) _ false)
+    · exact a.trans (sc_propagate3 ni nj nk .outWalk .outside (some .surfWalk2) .surfWalk1 rfl rfl rfl (ni * nj * nk + 1) _ false)
+    · exact (a.trans (sc_propagate3 ni nj nk .outWalk .outside (some .surfWalk2) .surfWalk1 rfl rfl rfl (ni * nj * nk + 1) _ false)).trans
+        (sc_cavityLoop3 ni nj nk fuel _)
+
+theorem size_walks3 (ni nj nk : Nat) (u sv : VV) (g : Array VV) (p : Nat × Nat × Nat) : (walks3 ni nj nk u sv g p).size = g.size := by
+  unfold walks3
+  generalize walkLists3 ni nj nk p.1 p.2.1 p.2.2 = ls
+  induction ls generalizing g with
+  | nil => rfl
+  | cons l ls ih => rw [List.foldl_cons, ih, size_walkCells]
+
+section
+variable (ni nj nk : Nat) (toWalk toSet : VV) (surfWalk : Option VV) (sSet : VV)
+
+/-- a value the pass neither reads nor writes keeps its number of cells -/
+theorem cnt_propCell3_other (w : VV) (hw1 : w ≠ toWalk) (hw2 : w ≠ toSet) (hw3 : w ≠ sSet) (hw0 : w ≠ .undef) (hw8 : w ≠ .surf)
+    (st : PSt) (p : Nat × Nat × Nat) (hp : idx3 ni nj p.1 p.2.1 p.2.2 < st.g.size) :
+    cnt w (propCell3 ni nj nk toWalk toSet surfWalk sSet st p).g = cnt w st.g := by
+  unfold propCell3
+  simp only []
+  by_cases hv : st.g.getD (idx3 ni nj p.1 p.2.1 p.2.2) .undef = toWalk
+  · rw [if_pos hv]
+    simp only []
+    obtain ⟨a1, _⟩ := cnt_walks3 ni nj nk w toWalk sSet hw1 hw3 hw0 hw8 (st.g.setIfInBounds (idx3 ni nj p.1 p.2.1 p.2.2) toSet) p
+    have := cnt_set w toSet st.g _ hp
+    rw [hv, if_neg (Ne.symm hw1), if_neg (Ne.symm hw2)] at this
+    omega
+  · rw [if_neg hv]
+    by_cases hs : some (st.g.getD (idx3 ni nj p.1 p.2.1 p.2.2) .undef) ≠ surfWalk
+    · rw [if_pos hs]
+    · rw [if_neg hs]
+      simp only []
+      exact (cnt_walks3 ni nj nk w toWalk sSet hw1 hw3 hw0 hw8 st.g p).1
+
+theorem propCell3_size (st : PSt) (p : Nat × Nat × Nat) :
+    (propCell3 ni nj nk toWalk toSet surfWalk sSet st p).g.size = st.g.size := by
+  unfold propCell3
+  simp only []
+  split_ifs
+  · simp only []
+    rw [(size_walks3 ni nj nk toWalk sSet _ p)]; simp
+  · rfl
+  · exact size_walks3 ni nj nk toWalk sSet _ p
+
+theorem cnt_foldl3_other (w : VV) (hw1 : w ≠ toWalk) (hw2 : w ≠ toSet) (hw3 : w ≠ sSet) (hw0 : w ≠ .undef) (hw8 : w ≠ .surf) :
+    ∀ (l : List (Nat × Nat × Nat)) (st : PSt), st.g.size = ni * nj * nk → (∀ p ∈ l, InB3 ni nj nk p) →
+    cnt w (l.foldl (propCell3 ni nj nk toWalk toSet surfWalk sSet) st).g = cnt w st.g
+  | [], _, _, _ => rfl
+  | p :: l, st, hs, hl => by
+    rw [List.foldl_cons]
+    have hp := hl p List.mem_cons_self
+    rw [cnt_foldl3_other w hw1 hw2 hw3 hw0 hw8 l _ (by rw [propCell3_size]; exact hs) (fun q hq => hl q (List.mem_cons_of_mem _ hq))]
+    exact cnt_propCell3_other ni nj nk toWalk toSet surfWalk sSet w hw1 hw2 hw3 hw0 hw8 st p (by rw [hs]; exact idx3_lt hp.1 hp.2.1 hp.2.2)
+
+theorem cnt_sweep3_other (w : VV) (hw1 : w ≠ toWalk) (hw2 : w ≠ toSet) (hw3 : w ≠ sSet) (hw0 : w ≠ .undef) (hw8 : w ≠ .surf)
+    (g : Array VV) (once : Bool) (hs : g.size = ni * nj * nk) :
+    cnt w (sweep3 ni nj nk toWalk toSet surfWalk sSet g once).g = cnt w g := by
+  unfold sweep3
+  exact cnt_foldl3_other ni nj nk toWalk toSet surfWalk sSet w hw1 hw2 hw3 hw0 hw8 (cellsIn3 0 0 0 ni nj nk) ⟨g, 0, once⟩ hs
+    (fun p hp => mem_cellsIn3_inB ni nj nk hp)
+
+theorem propCell3_walked_mono (st : PSt) (p : Nat × Nat × Nat) :
+    st.walked ≤ (propCell3 ni nj nk toWalk toSet surfWalk sSet st p).walked := by
+  unfold propCell3; simp only []; split_ifs <;> simp
+
+theorem propCell3_once (st : PSt) (p : Nat × Nat × Nat) (h : (propCell3 ni nj nk toWalk toSet surfWalk sSet st p).once = true) :
+    st.once = true ∨ st.walked < (propCell3 ni nj nk toWalk toSet surfWalk sSet st p).walked := by
+  unfold propCell3 at h ⊢
+  simp only [] at h ⊢
+  split_ifs at h ⊢
+  · right; simp
+  · left; exact h
+  · left; exact h
+
+theorem foldl3_walked_mono : ∀ (l : List (Nat × Nat × Nat)) (st : PSt),
+    st.walked ≤ (l.foldl (propCell3 ni nj nk toWalk toSet surfWalk sSet) st).walked
+  | [], _ => le_refl _
+  | p :: l, st => by
+    rw [List.foldl_cons]
+    exact le_trans (propCell3_walked_mono ni nj nk toWalk toSet surfWalk sSet st p) (foldl3_walked_mono l _)
+
+/-- `walked_at_least_once` can only become true in a sweep that walked a voxel -/
+theorem foldl3_once : ∀ (l : List (Nat × Nat × Nat)) (st : PSt),
+    (l.foldl (propCell3 ni nj nk toWalk toSet surfWalk sSet) st).once = true →
+      st.once = true ∨ st.walked < (l.foldl (propCell3 ni nj nk toWalk toSet surfWalk sSet) st).walked
+  | [], st, h => Or.inl h
+  | p :: l, st, h => by
+    rw [List.foldl_cons] at h ⊢
+    rcases foldl3_once l _ h with h1 | h1
+    · rcases propCell3_once ni nj nk toWalk toSet surfWalk sSet st p h1 with h2 | h2
+      · left; exact h2
+      · right; exact lt_of_lt_of_le h2 (foldl3_walked_mono ni nj nk toWalk toSet surfWalk sSet l _)
+    · right; exact lt_of_le_of_lt (propCell3_walked_mono ni nj nk toWalk toSet surfWalk sSet st p) h1
+
+/-- `propagate_values`: a value the pass neither reads nor writes keeps its count; the count of `toSet` never decreases and
+increases if the pass reports `walked_at_least_once` -/
+theorem propagate3_counts (h1 : toSet ≠ toWalk) (h2 : toSet ≠ sSet) (h0 : toSet ≠ .undef) (h8 : toSet ≠ .surf)
+    (w : VV) (hw1 : w ≠ toWalk) (hw2 : w ≠ toSet) (hw3 : w ≠ sSet) (hw0 : w ≠ .undef) (hw8 : w ≠ .surf) :
+    ∀ (fuel : Nat) (g : Array VV) (once : Bool), g.size = ni * nj * nk →
+    cnt w (propagate3 ni nj nk toWalk toSet surfWalk sSet fuel g once).1 = cnt w g ∧
+    cnt toSet g ≤ cnt toSet (propagate3 ni nj nk toWalk toSet surfWalk sSet fuel g once).1 ∧
+    ((propagate3 ni nj nk toWalk toSet surfWalk sSet fuel g once).2.1 = true → once = true ∨
+      cnt toSet g < cnt toSet (propagate3 ni nj nk toWalk toSet surfWalk sSet fuel g once).1)
+  | 0, g, once, _ => ⟨rfl, le_refl _, fun h => Or.inl h⟩
+  | fuel + 1, g, once, hs => by
+    unfold propagate3
+    simp only []
+    obtain ⟨a1, a2⟩ := cnt_sweep3 ni nj nk toWalk toSet surfWalk sSet h1 h2 h0 h8 g once hs
+    have a3 := cnt_sweep3_other ni nj nk toWalk toSet surfWalk sSet w hw1 hw2 hw3 hw0 hw8 g once hs
+    have a4 : (sweep3 ni nj nk toWalk toSet surfWalk sSet g once).once = true → once = true ∨
+        0 < (sweep3 ni nj nk toWalk toSet surfWalk sSet g once).walked := by
+      intro h; unfold sweep3 at h ⊢
+      exact foldl3_once ni nj nk toWalk toSet surfWalk sSet (cellsIn3 0 0 0 ni nj nk) ⟨g, 0, once⟩ h
+    by_cases hw : (sweep3 ni nj nk toWalk toSet surfWalk sSet g once).walked = 0
+    · rw [if_pos hw]
+      simp only []
+      refine ⟨a3, by omega, fun h => ?_⟩
+      rcases a4 h with x | x
+      · exact Or.inl x
+      · omega
+    · rw [if_neg hw]
+      obtain ⟨b1, b2, b3⟩ := propagate3_counts h1 h2 h0 h8 w hw1 hw2 hw3 hw0 hw8 fuel
+        (sweep3 ni nj nk toWalk toSet surfWalk sSet g once).g (sweep3 ni nj nk toWalk toSet surfWalk sSet g once).once a2
+      refine ⟨by rw [b1, a3], by omega, fun h => ?_⟩
+      right; omega
+end
+
+/-- **the fuel of the `detect_cavities` alternation suffices**: every completed inside/outside round turns at least two
+cells into their final `inside`/`outside` value -/
+theorem cavityLoop3_fuel (ni nj nk : Nat) : ∀ (fuel : Nat) (g : Array VV), g.size = ni * nj * nk →
+    g.size - (cnt .inside g + cnt .outside g) < fuel → (cavityLoop3 ni nj nk fuel g).2 = true
+  | 0, g, _, hf => by omega
+  | fuel + 1, g, hs, hf => by
+    unfold cavityLoop3
+    simp only []
+    obtain ⟨f1, f1s⟩ := propagate3_fuel ni nj nk .inWalk .inside (some .surfWalk1) .surfWalk2 (by decide) (by decide) (by decide) (by decide)
+      (ni * nj * nk + 1) g false hs (by rw [hs]; omega)
+    obtain ⟨c1, c2, c3⟩ := propagate3_counts ni nj nk .inWalk .inside (some .surfWalk1) .surfWalk2 (by decide) (by decide) (by decide) (by decide)
+      .outside (by decide) (by decide) (by decide) (by decide) (by decide) (ni * nj * nk + 1) g false hs
+    rw [f1]
+    simp only [Bool.not_true, Bool.false_eq_true, if_false]
+    by_cases ho : (propagate3 ni nj nk .inWalk .inside (some .surfWalk1) .surfWalk2 (ni * nj * nk + 1) g false).2.1 = true
+    · rw [ho]
+      simp only [Bool.not_true, Bool.false_eq_true, if_false]
+      set g1 := (propagate3 ni nj nk .inWalk .inside (some .surfWalk1) .surfWalk2 (ni * nj * nk + 1) g false).1 with hg1
+      obtain ⟨f2, f2s⟩ := propagate3_fuel ni nj nk .outWalk .outside (some .surfWalk2) .surfWalk1 (by decide) (by decide) (by decide) (by decide)
+        (ni * nj * nk + 1) g1 false f1s (by rw [f1s]; omega)
+      obtain ⟨d1, d2, d3⟩ := propagate3_counts ni nj nk .outWalk .outside (some .surfWalk2) .surfWalk1 (by decide) (by decide) (by decide) (by decide)
+        .inside (by decide) (by decide) (by decide) (by decide) (by decide) (ni * nj * nk + 1) g1 false f1s
+      rw [f2]
+      simp only [Bool.not_true, Bool.false_eq_true, if_false]
+      by_cases ho2 : (propagate3 ni nj nk .outWalk .outside (some .surfWalk2) .surfWalk1 (ni * nj * nk + 1) g1 false).2.1 = true
+      · rw [ho2]
+        simp only [Bool.not_true, Bool.false_eq_true, if_false]
+        set g2 := (propagate3 ni nj nk .outWalk .outside (some .surfWalk2) .surfWalk1 (ni * nj * nk + 1) g1 false).1 with hg2
+        have hle := cnt_two_le .inside .outside (by decide) g2
+        have e1 : cnt .inside g < cnt .inside g1 := by
+          rcases c3 ho with x | x
+          · cases x
+          · exact x
+        have e2 : cnt .outside g1 < cnt .outside g2 := by
+          rcases d3 ho2 with x | x
+          · cases x
+          · exact x
+        apply cavityLoop3_fuel ni nj nk fuel g2 f2s
+        rw [f2s] at hle ⊢
+        rw [hs] at hf
+        omega
+      · have : (propagate3 ni nj nk .outWalk .outside (some .surfWalk2) .surfWalk1 (ni * nj * nk + 1) g1 false).2.1 = false := by simpa using ho2
+        rw [this]; simp
+    · have : (propagate3 ni nj nk .inWalk .inside (some .surfWalk1) .surfWalk2 (ni * nj * nk + 1) g false).2.1 = false := by simpa using ho
+      rw [this]; simp
+
+theorem sc_markOutside3 (ni nj : Nat) (g : Array VV) (i0 j0 k0 i1 j1 k1 : Nat) :
+    SameClass g (markOutside3 ni nj g i0 j0 k0 i1 j1 k1) := by
+  unfold markOutside3
+  generalize cellsIn3 i0 j0 k0 i1 j1 k1 = l
+  induction l generalizing g with
+  | nil => exact SameClass.refl g
+  | cons c l ih =>
+    rw [List.foldl_cons]
+    by_cases h : g.getD (idx3 ni nj c.1 c.2.1 c.2.2) .undef = .undef
+    · rw [if_pos h]; exact (sc_set g _ .outWalk (by rw [h]; rfl)).trans (ih _)
+    · rw [if_neg h]; exact ih _
+
+theorem sc_markBorder3 (ni nj nk : Nat) (g : Array VV) : SameClass g (markBorder3 ni nj nk g) := by
+  unfold markBorder3
+  exact (((((sc_markOutside3 ni nj g _ _ _ _ _ _).trans (sc_markOutside3 ni nj _ _ _ _ _ _ _)).trans
+    (sc_markOutside3 ni nj _ _ _ _ _ _ _)).trans (sc_markOutside3 ni nj _ _ _ _ _ _ _)).trans
+    (sc_markOutside3 ni nj _ _ _ _ _ _ _)).trans (sc_markOutside3 ni nj _ _ _ _ _ _ _)
+
+/-- **`detect_cavities` (3-D): the fill never changes which cells are surface cells**, and turns every one of them back
+into `PrimitiveOnSurface` at the end -/
+theorem fill3_cav_surf_getD (ni nj nk : Nat) (g : Array VV) (k : Nat) :
+    (fill3 true true ni nj nk g).1.getD k .undef = .surf ↔ isSC (g.getD k .undef) = true := by
+  have e : fill3 true true ni nj nk g =
+      ((cavityLoop3 ni nj nk (ni * nj * nk + 1) (propagate3 ni nj nk .outWalk .outside none .surfWalk1 (ni * nj * nk + 1) (markBorder3 ni nj nk g) false).1).1.map
+          (fun v => if v = .surfWalk1 ∨ v = .surfWalk2 ∨ v = .surfNoWalk then .surf else v),
+        (propagate3 ni nj nk .outWalk .outside none .surfWalk1 (ni * nj * nk + 1) (markBorder3 ni nj nk g) false).2.2 &&
+        (cavityLoop3 ni nj nk (ni * nj * nk + 1) (propagate3 ni nj nk .outWalk .outside none .surfWalk1 (ni * nj * nk + 1) (markBorder3 ni nj nk g) false).1).2) := by
+    unfold fill3; simp
+  rw [e]
+  simp only []
+  have sc := ((sc_markBorder3 ni nj nk g).trans
+    (sc_propagate3 ni nj nk .outWalk .outside none .surfWalk1 rfl rfl rfl (ni * nj * nk + 1) (markBorder3 ni nj nk g) false)).trans
+    (sc_cavityLoop3 ni nj nk (ni * nj * nk + 1) _)
+  rw [← sc.2 k]
+  generalize (cavityLoop3 ni nj nk (ni * nj * nk + 1) (propagate3 ni nj nk .outWalk .outside none .surfWalk1 (ni * nj * nk + 1) (markBorder3 ni nj nk g) false).1).1 = G
+  simp only [Array.getD_eq_getD_getElem?, Array.getElem?_map]
+  cases hG : G[k]? with
+  | none => simp [isSC]
+  | some v => cases v <;> simp [isSC]
+
+/-- **every loop of the 3-D fill pass stays within its fuel**, in every `FillMode` -/
+theorem fill3_fuel_all' (flood cav : Bool) (ni nj nk : Nat) (g : Array VV) (hs : g.size = ni * nj * nk) :
+    (fill3 flood cav ni nj nk g).2 = true := by
+  unfold fill3
+  by_cases hf : flood = true
+  · have hsb : (markBorder3 ni nj nk g).size = ni * nj * nk := by rw [(sc_markBorder3 ni nj nk g).1]; exact hs
+    by_cases hc : cav = true
+    · simp only [hf, hc, Bool.not_true, Bool.false_eq_true, if_false, if_true]
+      obtain ⟨f0, f0s⟩ := propagate3_fuel ni nj nk .outWalk .outside none .surfWalk1 (by decide) (by decide) (by decide) (by decide)
+        (ni * nj * nk + 1) (markBorder3 ni nj nk g) false hsb (by rw [hsb]; omega)
+      rw [f0, cavityLoop3_fuel ni nj nk (ni * nj * nk + 1) _ f0s (by rw [f0s]; omega)]
+      rfl
+    · have hc' : cav = false := by simpa using hc
+      simp only [hf, hc', Bool.not_true, Bool.false_eq_true, if_false]
+      exact (propagate3_fuel ni nj nk .outWalk .outside none .surf (by decide) (by decide) (by decide) (by decide)
+        (ni * nj * nk + 1) (markBorder3 ni nj nk g) false hsb (by rw [hsb]; omega)).1
+  · have hf' : flood = false := by simpa using hf
+    simp [hf']
+
 end C18
